@@ -38,6 +38,10 @@ add(P, "purge_of_restored_entry_then_eviction", one, fetch("r1", "k1", "d1", 3) 
     + fetch("r2", "k2", "d1", 3) + ask("r4", "k1", "d1", "ok"))
 add(P, "purge_of_restored_entry_then_kill", one, fetch("r1", "k1", "d1", 3) + [{"a": "Kill"}] + ask("r3", "k1", "d1", "ok") + R("r3") + purge("p1", "k1", "d1")
     + [{"a": "Kill"}] + ask("r4", "k1", "d1", "ok"))
+# a purge without a cache name while the stores refuse to delete: every cache drops the key from memory all the same
+both_stores = {"disps": [{"name": "d1", "limit": 0, "hfp": 1, "store": True}, {"name": "d2", "limit": 0, "hfp": 1, "store": True}], "keys": {"k1": 1}}
+add(P, "unnamed_purge_while_deletes_fail", both_stores, fetch("r1", "k1", "d1", 3) + fetch("r2", "k1", "d2", 3) + [{"a": "FailDeletes", "k": "k1"}] + purge("p1", "k1", "")
+    + [{"a": "StoreDrop", "d": "d1", "k": "k1"}, {"a": "StoreDrop", "d": "d2", "k": "k1"}] + ask("r1", "k1", "d1", "ok") + R("r1", 2) + ask("r2", "k1", "d2", "ok") + R("r2", 2))
 add(P, "admin_purge_after_eviction", one, fetch("r1", "k1", "d1") + fetch("r2", "k2", "d1") + [{"a": "AdminPurge", "k": "k1", "d": "d1"}] + ask("r3", "k1", "d1", "ok"))
 # a purge while a fetch is in flight, a request is parked behind it and another request holds the entry it looked up
 # before the purge (it is between the lookup and Get): everybody must come to an end
